@@ -1,6 +1,8 @@
 """C18 — the environments honour the Gymnasium contract."""
 import numpy as np
 
+import random
+
 import gen
 from framework import PropertyCheck, Scenario
 from impl import instance_line
@@ -62,6 +64,10 @@ class Check(PropertyCheck):
         for i in range(n):
             if i % 10 == 4:
                 yield self.pair_scenario(rng)
+            elif i % 20 == 9:
+                meta = {"kind": "single", "family": "custom_graph", "flexible": False, "steps": 0, "filter": "none",
+                        "n_feats": 0, "filter_style": "callable", "builder": "custom", "rm": 1, "rj": 1, "reward": "makespan", "pad": 1}
+                yield Scenario(["new", f"mark customgraph {rng.randint(0, 10**6)}"], meta)
             elif i % 3 == 2:
                 yield self.multi_scenario(rng)
             else:
@@ -191,7 +197,11 @@ class Check(PropertyCheck):
             res.append(("obs-not-in-space", f"{what}: observation outside the declared observation space: "
                         f"{'; '.join(detail)} {('extra keys ' + str(extra)) if extra else ''}"))
         rm = [bool(b) for b in obs["removed_nodes"]]
-        real_rm = [bool(b) for b in g.removed_nodes]
+        # the graph itself (networkx), not the bookkeeping list kept beside it
+        real_rm = [node.node_id not in g.graph for node in g.nodes]
+        if real_rm != [bool(b) for b in g.removed_nodes]:
+            res.append(("mask", f"{what}: the graph's removed_nodes list {[bool(b) for b in g.removed_nodes]} disagrees with "
+                        f"the nodes actually in the graph {real_rm}"))
         if rm[:len(real_rm)] != real_rm:
             res.append(("mask", f"{what}: removed_nodes {rm[:len(real_rm)]} differs from the graph's {real_rm}"))
         if any(not b for b in rm[len(real_rm):]):
@@ -232,8 +242,45 @@ class Check(PropertyCheck):
                 break
         return res
 
+    def custom_graph_oracle(self, seed):
+        """A graph handed to the environment by a custom initializer that already removed nodes (source and sink of the
+        disjunctive graph): the mask mirrors the graph in every episode."""
+        import jsl
+        from job_shop_lib.graphs import build_disjunctive_graph
+        from job_shop_lib.reinforcement_learning import SingleJobShopGraphEnv
+        r = random.Random(seed)
+        _, jobs = gen.gen_instance(r, r.choice(["classic", "irregular", "recirc"]), max_jobs=3, max_machines=3, max_ops=3)
+        from impl import build_instance
+        g = build_disjunctive_graph(build_instance(jobs))
+        for node in list(g.nodes):
+            if node.node_type.name in ("SOURCE", "SINK"):
+                g.remove_node(node.node_id)
+        res = []
+        from job_shop_lib.dispatching import DispatcherObserverConfig
+        from job_shop_lib.dispatching.feature_observers import FeatureObserverType
+        env = SingleJobShopGraphEnv(g, feature_observer_configs=[DispatcherObserverConfig(FeatureObserverType.IS_READY, kwargs={})])
+        for ep in range(3):
+            obs, _ = env.reset()
+            steps = 0
+            while True:
+                graph = env.job_shop_graph
+                real = [node.node_id not in graph.graph for node in graph.nodes]
+                if [bool(b) for b in obs["removed_nodes"]][:len(real)] != real:
+                    res.append(("mask", f"custom graph without source/sink, episode {ep + 1} after {steps} steps: removed_nodes "
+                                f"{[int(b) for b in obs['removed_nodes']]} but the nodes absent from the graph are {[int(b) for b in real]}"))
+                    return res
+                d = env.dispatcher
+                ready = [j for j, job in enumerate(d.instance.jobs) if d.job_next_operation_index[j] < len(job)]
+                if not ready or (ep < 2 and steps >= 2):
+                    break
+                obs, _, done, _, _ = env.step((r.choice(ready), -1))
+                steps += 1
+        return res
+
     def oracle(self, impl, scenario, index, line, out, ctx):
         res = []
+        if line.startswith("mark customgraph"):
+            return self.custom_graph_oracle(int(line.split()[2]))
         cmd = line.split()[0]
         pad = scenario.meta["pad"] == 1
         # the known finding (spaces declared from one sample instance) needs recirculation or several machines per
